@@ -234,8 +234,38 @@ class Executor:
         key = f"{self.modname}:{name}"
         if key in GLOBAL_NAMES:
             return GLOBAL_NAMES[key]
+        mc = self.module_constant(name)
+        if mc is not None:
+            return mc
         if name in GLOBAL_NAMES:
             return GLOBAL_NAMES[name]
+        return None
+
+    def module_constant(self, name):
+        """Module-level `name = {<str constants>}` / tuple / str / int in the REAL module source
+        (re-read every run), as a meta-level constant."""
+        from .core import load_module
+        try:
+            tree = load_module(self.modname)
+        except Exception:
+            return None
+        for st in tree.body:
+            tgt = None
+            if isinstance(st, ast.Assign) and len(st.targets) == 1 and isinstance(st.targets[0], ast.Name):
+                tgt, val = st.targets[0].id, st.value
+            elif isinstance(st, ast.AnnAssign) and isinstance(st.target, ast.Name) and st.value is not None:
+                tgt, val = st.target.id, st.value
+            if tgt != name:
+                continue
+            if isinstance(val, (ast.Set, ast.Tuple, ast.List)) and all(
+                    isinstance(e, ast.Constant) and isinstance(e.value, str) for e in val.elts):
+                return Py(("strset", frozenset(e.value for e in val.elts)))
+            if isinstance(val, ast.Constant) and isinstance(val.value, str):
+                return S(z3.StringVal(val.value))
+            if isinstance(val, ast.Constant) and isinstance(val.value, bool):
+                return B(z3.BoolVal(val.value))
+            if isinstance(val, ast.Constant) and isinstance(val.value, int):
+                return I(z3.IntVal(val.value))
         return None
 
     def ev_Name(self, node, path):
@@ -638,7 +668,50 @@ class Executor:
         return self.comprehension(node, path, "set")
 
     def ev_DictComp(self, node, path):
+        r = self.dict_filter_comprehension(node, path)
+        if r is not None:
+            return r
         return self.comprehension(node, path, "dict")
+
+    def dict_filter_comprehension(self, node, path):
+        """{k: v for k, v in D.items() if <pred(k)>} on a str-keyed dict: a new dict with
+        has'[k] = has[k] and pred(k), values kept (no loop needed: pointwise definition)."""
+        if len(node.generators) != 1:
+            return None
+        gen = node.generators[0]
+        it, tgt = gen.iter, gen.target
+        if not (isinstance(it, ast.Call) and isinstance(it.func, ast.Attribute) and it.func.attr == "items"
+                and not it.args and isinstance(tgt, ast.Tuple) and len(tgt.elts) == 2
+                and all(isinstance(e, ast.Name) for e in tgt.elts)):
+            return None
+        kname, vname = tgt.elts[0].id, tgt.elts[1].id
+        if not (isinstance(node.key, ast.Name) and node.key.id == kname
+                and isinstance(node.value, ast.Name) and node.value.id == vname):
+            return None
+        out = []
+        for p, d in self.ev(it.func.value, path):
+            if isinstance(d, Raise):
+                out.append((p, d))
+                continue
+            if not (isinstance(d, O) and split_generic(d.cls)[0] == "dict"):
+                return None
+            kk = z3.Const(f"kk!dc{self.loop_ids.get(id(node), 0)}", Str)
+            saved = dict(p.env)
+            p.env[kname] = S(kk)
+            p.env[vname] = O(z3.Select(p.sel("dict.val", d.e), kk), "Val")
+            pred = z3.BoolVal(True)
+            for cond in gen.ifs:
+                rs = self.ev(cond, p)
+                if len(rs) != 1 or isinstance(rs[0][1], Raise):
+                    self.unsupported(node, "dict comprehension filter with effects")
+                pred = z3.And(pred, truth_of(p, rs[0][1]))
+            p.env = saved
+            nd = p.alloc(d.cls, "dfilt")
+            has = p.sel("dict.has", d.e)
+            p.store("dict.has", nd.e, z3.Lambda([kk], z3.And(z3.Select(has, kk), pred)))
+            p.store("dict.val", nd.e, p.sel("dict.val", d.e))
+            out.append((p, nd))
+        return out
 
     def comprehension(self, node, path, kind, env=None) -> list:
         """Desugar [elt for x in it if c] to: acc = []; for x in it: if c: acc.append(elt)."""
